@@ -19,8 +19,11 @@ CHUNK = 300
 NAMES = ["x", "valve", "nothing", "android", "orbit", "v1", "a", "b_v", "notv", "vv",
          # names the MACHINE reserves for itself (a state id, reserved words): as guard names they can only be
          # provided by the model or a listener
-         "s0", "states", "send"]
+         "s0", "states", "send",
+         # a legal attribute name that is also the spelling of the `or` operator: usable as a whole entry only
+         "v"]
 RESERVED_FROM = 10
+V_NAME = 13
 OPS = {"==": "CEq", "!=": "CNe", "<": "CLt", "<=": "CLe", ">": "CGt", ">=": "CGe"}
 VALUES = [True, False, 0, 1, 2, 5, None, {"s": 0}, {"s": 1}, {"s": 2}, {"l": []}, {"l": [0]}]
 CMP_VALUES = [0, 1, 2, 5, True, False, {"s": 1}, {"s": 2}]
@@ -201,7 +204,10 @@ def make_classes(sc):
                 continue
             name = NAMES[n]
             if how == "property":
-                d[name] = property(lambda self, n=n: (LOG.append(n), pyv(ENV[n]))[1])
+                def getter(self, n=n):
+                    return (LOG.append(n), pyv(ENV[n]))[1]
+                getter.__name__ = name            # (as a `def name(self)` under @property has)
+                d[name] = property(getter)
             elif how == "method":
                 d[name] = (lambda n: lambda self: (LOG.append(n), pyv(ENV[n]))[1])(n)
             elif how == "aw_object":     # a plain method handing back an awaitable that is no coroutine
@@ -229,6 +235,19 @@ def make_classes(sc):
     # metaclass onto every non-final state, i.e. onto s0)
     body["go"] = body["s0"].from_.any(**kw) if sc.get("via_any") else body["s0"].to.itself(**kw)
     body.update(mk(0))
+    mbases, mdl_bases = (StateMachine,), ()
+    if sc.get("propobj"):
+        # the guard is given as the PROPERTY OBJECT of a base class; the provider is an instance of a subclass
+        name = NAMES[sc["ast"][1]]
+        prov = kinds[str(sc["ast"][1])][0]
+        if prov == 0:
+            prop = body.pop(name)
+            MBase = type(StateMachine)("MBase", (StateMachine,), {name: prop})
+            mbases = (MBase,)
+        else:
+            prop = mk(1)[name]
+            mdl_bases = (type("MdlBase", (), {name: prop}),)
+        body["go"] = body["s0"].to.itself(**{("cond" if sc["expected"] else "unless"): prop})
     if sc.get("decor_list"):
         # the guard is a method of the machine attached with the decorator syntax to a LIST of transitions
         # (one per state; the event alternates between them): `@go.unless` / `@go.cond`
@@ -237,8 +256,11 @@ def make_classes(sc):
         name = NAMES[sc["ast"][1]]
         body[name] = (tl.cond if sc["expected"] else tl.unless)(body[name])
         body["go"] = tl
-    M = type(StateMachine)("M", (StateMachine,), body)
-    Mdl = type("Mdl", (), dict(mk(1), state=None))
+    M = type(StateMachine)("M", mbases, body)
+    mdl_body = dict(mk(1), state=None)
+    if mdl_bases:
+        mdl_body.pop(NAMES[sc["ast"][1]], None)
+    Mdl = type("Mdl", mdl_bases, mdl_body)
     Lst = type("Lst", (), mk(2))
     return M, Mdl, Lst
 
@@ -434,20 +456,23 @@ MALFORMED = ["a and", "a b", "(a", "a ==", "", "   ", "a +", "== a", "a and and 
 
 def gen_case(rng, depth):
     import ast
-    nm = rng.sample(range(len(NAMES)), rng.randint(1, 4))
+    nm = rng.sample(range(V_NAME), rng.randint(1, 4))
     tree = gen_expr(rng, depth, nm)
+    only_v = rng.random() < 0.03
+    if only_v:
+        tree = ["n", V_NAME]              # the whole entry is the name `v`
     canon = render(tree, None)
     alt = {"and_": rng.choice(["and", "^"]), "or_": rng.choice(["or", "v"]), "not_": rng.choice(["not", "!"]),
            "sp": rng.choice([0, 1, 1, 2]), "extra_parens": rng.choice([0, 0, 0.3])}
     if rng.random() < 0.25:
         alt = None
-    text = render(tree, alt, rng) if alt else canon
+    text = render(tree, alt, rng) if (alt and not only_v) else canon
     a = from_ast(ast.parse(canon, mode="eval").body)
     used = names_in(a, [])
     cmpy = has_cmp(a)
     provide = {}
     for n in used:
-        provide[str(n)] = (rng.choice([0, 0, 1, 2] if n < RESERVED_FROM else [1, 2]), rng.choice(["property", "method", "attr"]))
+        provide[str(n)] = (rng.choice([0, 0, 1, 2] if (n < RESERVED_FROM or n == V_NAME) else [1, 2]), rng.choice(["property", "method", "attr"]))
     envs = []
     for _ in range(rng.randint(1, 4)):
         # ordering comparisons are modelled for numbers, booleans and strings (None and mixed kinds raise
@@ -455,7 +480,7 @@ def gen_case(rng, depth):
         envs.append({str(n): rng.choice(CMP_VALUES + [None] if cmpy else VALUES) for n in used})
     sc = {"ast": a, "canon": canon, "text": text, "expected": rng.random() < 0.7, "provide": provide,
           "envs": envs}
-    if rng.random() < 0.3:
+    if rng.random() < 0.3 and not only_v:
         # a second entry on the same transition over the same names: the same tree with and/or swapped
         # at the top, or another random expression
         def swap(e):
@@ -515,7 +540,11 @@ def gen_case(rng, depth):
         if a[0] == "n" and not sc.get("second") and rng.random() < 0.7:
             prov, _how = provide[str(a[1])]
             provide[str(a[1])] = (prov, rng.choice(["aw_object", "aw_future"]))
-    if (a[0] == "n" and not sc.get("second") and not sc.get("late_twin")
+    if (a[0] == "n" and not sc.get("second") and not sc.get("late_twin") and not sc.get("async_engine")
+            and a[1] < RESERVED_FROM and rng.random() < 0.3):
+        provide[str(a[1])] = (rng.choice([0, 1]), "property")
+        sc["propobj"], sc["via_any"] = True, False
+    elif (a[0] == "n" and not sc.get("second") and not sc.get("late_twin")
             and not str(provide[str(a[1])][1]).startswith("aw_") and a[1] < RESERVED_FROM and rng.random() < 0.5):
         provide[str(a[1])] = (0, "method")
         sc["decor_list"], sc["via_any"] = True, False
